@@ -28,7 +28,7 @@ pub const PRELUDE: &str = r####"
 extern crate lalrpop_util;
 use std::fmt::Write as _;
 #[derive(Clone, Debug, PartialEq)]
-pub enum Tok { T0, T1, T2, T3, T4, Mark }
+pub enum Tok { T0, T1, T2, T3, T4, T5, T6, T7, Mark }
 #[derive(Clone, Debug, PartialEq, Default)]
 pub struct Loc(pub usize);
 
@@ -53,11 +53,11 @@ pub static PULLED: std::sync::atomic::AtomicUsize = std::sync::atomic::AtomicUsi
 thread_local! { pub static LOG: std::cell::RefCell<Vec<u32>> = std::cell::RefCell::new(Vec::new()); }
 pub fn log(x: u32) { LOG.with(|l| l.borrow_mut().push(x)); }
 
-/// input syntax for extern-token parsers: one char per token: '0'..'4' = T0..T4, 'm' = Mark,
+/// input syntax for extern-token parsers: one char per token: '0'..'7' = T0..T7, 'm' = Mark,
 /// 'E' = the stream yields Err("inj") at this position. Token i has span (10i+3, 10i+7).
 pub fn toks(input: &str) -> Vec<Result<(usize, Tok, usize), String>> {
     input.chars().enumerate().map(|(i, c)| {
-        let t = match c { '0' => Tok::T0, '1' => Tok::T1, '2' => Tok::T2, '3' => Tok::T3, '4' => Tok::T4, 'm' => Tok::Mark, 'E' => return Err(format!("inj{}", i)), _ => panic!("bad input char") };
+        let t = match c { '0' => Tok::T0, '1' => Tok::T1, '2' => Tok::T2, '3' => Tok::T3, '4' => Tok::T4, '5' => Tok::T5, '6' => Tok::T6, '7' => Tok::T7, 'm' => Tok::Mark, 'E' => return Err(format!("inj{}", i)), _ => panic!("bad input char") };
         Ok((10 * i + 3, t, 10 * i + 7))
     }).collect()
 }
